@@ -71,7 +71,7 @@ def run_the_case(p):
     sat = [o for o in dom if O.holds(cond, {0: o})]
     want = ('value', id(sat[0])) if len(sat) == 1 else (('none',) if not sat else ('multiple',))
     try:
-        got = O.outcome_of_the(dom, cond, cls=cls, inside=p.get('inside'))
+        got = O.outcome_of_the(dom, cond, cls=cls, inside=p.get('inside'), setof=p.get('setof', False))
     except Exception as e:  # noqa
         return {'exception': repr(e), 'trace': traceback.format_exc(limit=4)}
     if got != [want, want]:
@@ -90,10 +90,13 @@ def run_mode_case(p):
     dom = O.make_domain(rng, 4)
     with symbolic_mode():
         x = let(type_=O.Item, domain=dom)
+        from entity_query_language import set_of, and_
+        setof = bool(p.get('setof')) and rng.random() < 0.5
         if p.get('predicates'):
-            q = an(entity(x, O.is_big_fn(x), O.IsBig(x, 0))) if rng.random() < 0.5 else an(entity(x, O.is_big_fn(x)))
+            conds = [O.is_big_fn(x), O.IsBig(x, 0)] if rng.random() < 0.5 else [O.is_big_fn(x)]
         else:
-            q = an(entity(x, x.size >= 1))
+            conds = [x.size >= 1]
+        q = an(set_of([x], *conds)) if setof else an(entity(x, *conds))
     want_all = [o for o in dom if (o.size > 1 if p.get('predicates') else o.size >= 1)]
     base = O.mode_state()
     ref = [base]              # reference stack of (mode, stack depth)
@@ -103,7 +106,7 @@ def run_mode_case(p):
     try:
         for step in range(p.get('steps', 10)):
             # one live iterator per query at a time: interleaved iterators of one query share its evaluation state
-            ops = ['enter_q', 'enter_r', 'enter_expr', 'construct'] + ([] if iters else ['new_iter', 'new_iter'])
+            ops = ['enter_q', 'enter_r', 'enter_expr', 'construct', 'operator'] + ([] if iters else ['new_iter', 'new_iter'])
             if blocks:
                 ops += ['leave', 'leave_exc']
             if iters:
@@ -115,6 +118,19 @@ def run_mode_case(p):
                 cm.__enter__()
                 blocks.append(cm)
                 ref.append(('EQLMode.Query' if op == 'enter_q' else 'EQLMode.Rule', ref[-1][1]))
+            elif op == 'operator':
+                # a symbolic operator on a variable builds an expression inside a block and is rejected outside one
+                import operator as _op
+                f = rng.choice([_op.eq, _op.ne, _op.lt, _op.le, _op.gt, _op.ge])
+                rhs = rng.choice([2, x, 'a'])
+                try:
+                    r_ = f(x.size if ref[-1][0] != 'None' else x, rhs)
+                    built = True
+                except AttributeError:
+                    built, r_ = False, None
+                if built != (ref[-1][0] != 'None'):
+                    return {'log': log, 'what': 'symbolic operator ' + f.__name__ + (' accepted outside' if built else ' rejected inside') +
+                            ' symbolic mode', 'mode': ref[-1][0], 'result': repr(r_), 'signature_kind': 'operator'}
             elif op == 'construct':
                 # calling a @symbol class builds a real instance exactly when symbolic mode is off, whatever expression
                 # blocks are open
@@ -146,14 +162,15 @@ def run_mode_case(p):
             elif op == 'advance':
                 it = rng.choice(iters)
                 try:
-                    it[1].append(next(it[0]))
+                    r_ = next(it[0])
+                    it[1].append(r_[x] if setof else r_)
                 except StopIteration:
                     if not O.same_list_by_identity(it[1], want_all):
                         return {'log': log, 'what': 'results depend on the mode / history', 'got': repr(it[1]), 'want': repr(want_all)}
                     iters.remove(it)
             elif op == 'finish':
                 it = rng.choice(iters)
-                it[1].extend(list(it[0]))
+                it[1].extend([r_[x] if setof else r_ for r_ in it[0]])
                 iters.remove(it)
                 if not O.same_list_by_identity(it[1], want_all):
                     return {'log': log, 'what': 'results depend on the mode / history', 'got': repr(it[1]), 'want': repr(want_all)}
@@ -986,7 +1003,11 @@ def gen_rule_tree(rng, budget, depth, nvars=1):
         elif nvars > 1:
             v = rng.randrange(nvars)
             c = rng.choice([('cmp', rng.choice(['lt', 'ge', 'ne']), ('attr', v, 'size'), ('lit', rng.choice([1, 2, 3]))),
-                            ('cmp', rng.choice(['eq', 'ne']), ('attr', v, 'name'), ('lit', rng.choice('abc')))])
+                            ('cmp', rng.choice(['eq', 'ne']), ('attr', v, 'name'), ('lit', rng.choice('abc'))),
+                            # without a literal (a literal's id is part of the operators' cache keys, so conditions with
+                            # literals never hit the result caches)
+                            ('cmp', rng.choice(['le', 'gt', 'eq']), ('attr', v, 'size'), ('index', v, 'k')),
+                            ('truth', ('attr', v, 'flag'))])
         else:
             c = O.gen_cond(rng, 1, 1, vocab=('cmp', 'name'), neg=False)
         r = {'cond': c, 'tag': 'T%d' % counter[0], 'body': []}
